@@ -69,7 +69,11 @@ def gen_chain(rng):
     if k - s >= 2 and rng.random() < 0.35:
         # a mixed chain: a member WITHOUT the mode follows one with it (and reads the named file again)
         del members[rng.randint(s + 1, k - 1)]["modes"]
-    return {"kind": "chain", "rows": rows, "members": members, "suffix": s, "method": rng.choice(["collect_paths", "next_paths_collect"])}
+    sc = {"kind": "chain", "rows": rows, "members": members, "suffix": s, "method": rng.choice(["collect_paths", "next_paths_collect"])}
+    if sc["method"] == "next_paths_collect" and rng.random() < 0.4:
+        # the caller pulls some lines, performs a whole run of another group on the same instance, then drains the chain
+        sc["interrupt"] = {"after": rng.randint(1, 4), "method": rng.choice(["collect_paths", "fast_forward_paths", "collect_by_line", "next_paths_collect"])}
+    return sc
 
 
 def gen_refs(rng):
@@ -88,6 +92,7 @@ def gen_refs(rng):
         "by_id": rng.random() < 0.5,
         "col": rng.choice([1, 2]),
         "two_members": rng.random() < 0.5,
+        "selfref": rng.random() < 0.4,
         "names": names,
         # the file the READER scans may have its columns in another order: a reference names a column of G's data, not of the reader's
         "reader_layout": rng.choice(["same", "same", "permuted"]),
@@ -163,7 +168,11 @@ def reductions(sc):
                 c = with_(sc)
                 c["members"][j] = mm
                 yield c
-        if sc["method"] != "collect_paths":
+        if sc.get("interrupt"):
+            c = with_(sc)
+            del c["interrupt"]
+            yield c
+        if sc["method"] != "collect_paths" and not sc.get("interrupt"):
             yield with_(sc, method="collect_paths")
     elif sc["kind"] == "replay":
         for cand in drop_each(sc["ops"], 1):
@@ -265,12 +274,26 @@ def _chain(sc, out, w):
     with ops.quiet():
         cs.file_manager.add_named_file(name="f", path="src/f.csv")
         cs.paths_manager.add_named_paths(name="g", paths=[gen.render(m) for m in members])
+        cs.paths_manager.add_named_paths(name="other", paths=["~id:o~ $[*][ yes() ]", "~id:o2~ $[1*][ yes() ]"])
         origin = cs.file_manager.get_named_file("f")
     where = f"{sc['method']} chain {[gen.render(m) for m in members]}"
     exc = None
     caller = None
+    seen = {"n": 0}
+    intr = sc.get("interrupt") if sc["method"] == "next_paths_collect" else None
+
+    def on_yield(line):
+        seen["n"] += 1
+        if intr and seen["n"] == intr["after"]:
+            ops.run_group(cs, intr["method"], "other")
+            out.runs += 1
+            out.fault("interleaved_run")
+            out.probe("another run on the same instance while the chain was part-way")
+
+    if intr:
+        where += f" [after {intr['after']} line(s) the caller ran group 'other' by {intr['method']} on the same instance, then went on]"
     try:
-        caller = ops.run_group(cs, sc["method"], "g")
+        caller = ops.run_group(cs, sc["method"], "g", on_yield=on_yield)
     except Exception as e:  # noqa: BLE001
         exc = e
     out.runs += 1
@@ -324,6 +347,7 @@ def _chain(sc, out, w):
             out.v("chain_caller_stream", f"{where}: caller saw {caller!r:.300}, concatenation of the stages' lines is {want_stream!r:.300}")
     out.sig = ["chain", k, sc["suffix"], sc["method"], [len(e) if e is not None else None for e in expected][:4]]
     out.nontrivial = flowed
+    out.probe("another run on the same instance while the chain was part-way", False)
     out.probe("member without source-mode after one with it", any(members[j].get("modes") and not members[j + 1].get("modes") for j in range(k - 1)))
     out.probe("predecessor dropped the header record", any(e and e[0] and e[0][0] != "id" for e in expected[:-1] if e))
     out.log(expected, len(out.violations))
@@ -336,9 +360,13 @@ def _g_member(sc):
     return {"id": "g0", "scan": sc["gscan"], "comps": ["@v = #1", "@t.k = line_number()", 'push("s", #2)', "@n = count()"]}
 
 
-def _g2_member(sc):
+def _g2_member(sc, selfref=False):
     # (n is also set by g0, over another scan window: the reference must agree with the manager's merged view)
-    return {"id": "g1", "scan": "*", "comps": ["@w = #2", "@n2 = count()", "@n = add(count(), 100)"]}
+    comps = ["@w = #2", "@n2 = count()", "@n = add(count(), 100)"]
+    if selfref:
+        # the group's last member looks at its own group's variables while it runs (legal; what it sees is not asserted)
+        comps.append("@sr = $G.variables.v")
+    return {"id": "g1", "scan": "*", "comps": comps}
 
 
 def _refs(sc, out, w):
@@ -346,7 +374,7 @@ def _refs(sc, out, w):
         w.write_csv(f"src/f{fi}.csv", rows)
     gm = _g_member(sc)
     two = bool(sc.get("two_members"))
-    gms = [gm] + ([_g2_member(sc)] if two else [])
+    gms = [gm] + ([_g2_member(sc, selfref=bool(sc.get("selfref")))] if two else [])
     col = sc.get("col", 1)
     # with two members a header reference must name the member (the library documents references as single-path)
     by_id = sc["by_id"] or two
@@ -389,7 +417,7 @@ def _refs(sc, out, w):
         want_vars.update({kk: vv for kk, vv in v2.items() if kk != "n"})
         # n is set by both members: "the value the group left in n" is what the results manager's own merged view says
         merged_n = ops.jsonable(cs.results_manager.get_variables("G")).get("n")
-        if merged_n not in n_of:
+        if merged_n not in n_of and not sc.get("selfref"):
             out.v("merged_variables", f"results_manager.get_variables('G')['n'] = {merged_n!r} is the final n of neither member ({n_of})")
         want_vars["n"] = merged_n
     want_col = [f"{l[col]}".strip() for l in lines if len(l) > col and l[col] is not None]
@@ -399,7 +427,9 @@ def _refs(sc, out, w):
     rv = ops.jsonable(ops.results_of(cs, "R")[0].csvpath.variables)
     errs = ops.norm_errors(ops.results_of(cs, "R")[0].errors)
     where = f"G ({len(gms)} member(s)) run {len(sc['runs'])} time(s), last over f{last['file']} by {last['method']}; reader {sc['reader_method']}"
-    pairs = [("a", "v", "$G.variables.v"), ("n", "n", "$G.variables.n")] + ([("w", "w", "$G.variables.w"), ("n2", "n2", "$G.variables.n2")] if two else [])
+    selfref = two and bool(sc.get("selfref"))
+    # (with the self-reference in g1 its match counts depend on what the reference saw mid-run: only values that do not are compared)
+    pairs = [("a", "v", "$G.variables.v")] + ([] if selfref else [("n", "n", "$G.variables.n")]) + ([("w", "w", "$G.variables.w")] if two else []) + ([("n2", "n2", "$G.variables.n2")] if two and not selfref else [])
     for var, key, form in pairs:
         if rv.get(var) != want_vars.get(key):
             out.v("variable_reference", f"{where}: {form} evaluated to {rv.get(var)!r}, the most recent run of G left {want_vars.get(key)!r} (errors {errs})", form="plain")
@@ -418,6 +448,7 @@ def _refs(sc, out, w):
     out.nontrivial = True
     out.probe("reference after the group ran more than once", len(sc["runs"]) > 1)
     out.probe("reference into a group of two members", two)
+    out.probe("referenced group whose last member reads its own group's variables mid-run", two and bool(sc.get("selfref")))
     out.probe("reference to a variable that two members set to different values", two and len(set(map(str, n_of))) > 1 if two else False)
     out.probe("header reference to a digit-only header name", hname.isdigit())
     out.probe("reader scans a file whose columns are in another order", False)
